@@ -312,7 +312,7 @@ def build(name="alloc", archetype_items=None):
         Fn(L, r"^impl<R> Location<R>", "clone_with_new_identifier", ret="r",
            requires=[("pre.safety_map_has_identifier", "identifier_map@.dom().contains(self.identifier)")],
            ensures=[("C10.location_remapped", "r == (Location { identifier: identifier_map@[self.identifier], index: self.index })")],
-           props=["C10"]),
+           props=["C10", "C16"]),
     ])
     u.struct(LS, "Locations")
     u.struct(S, "Slot")
@@ -360,7 +360,7 @@ def build(name="alloc", archetype_items=None):
            requires=[("pre.safety_map_has_identifier", "self.location is Some ==> identifier_map@.dom().contains(self.location->0.identifier)")],
            ensures=[("C10.slot_generation_kept", "r.generation == self.generation"),
                     ("C10.slot_location_remapped", "r.location == vx_remap(self.location, identifier_map@)")],
-           props=["C10", "C02"]),
+           props=["C10", "C02", "C16"]),
     ])
 
     WF_ENS = [
@@ -617,7 +617,7 @@ def build(name="alloc", archetype_items=None):
                ("clone.location", "forall|s: int| 0 <= s < vx_i ==> (#[trigger] vx_v@[s]).location == vx_remap(self.slots@[s].location, identifier_map@)"),
                ("clone.pre", "self.map_covers(identifier_map@)"),
            ], decreases="self.slots@.len() - vx_i")],
-           props=["C10", "C02", "C13"]),
+           props=["C10", "C02", "C13", "C16"]),
         Fn(A, r"^impl<R> Allocator<R>", "clone_from",
            rewrites=[(r"self\.free\.clone_from\(&source\.free\);", "self.free = source.free.clone();",
                       "R12: `a.clone_from(&b)` on a std collection written as `a = b.clone()` (Verus has no clone_from; std documents them as equivalent in value)")],
@@ -629,7 +629,7 @@ def build(name="alloc", archetype_items=None):
                ("clone.location", "forall|s: int| 0 <= s < vx_i ==> (#[trigger] self.slots@[s]).location == vx_remap(source.slots@[s].location, identifier_map@)"),
                ("clone.pre", "source.map_covers(identifier_map@)"),
            ], decreases="source.slots@.len() - vx_i")],
-           props=["C10", "C02", "C13"]),
+           props=["C10", "C02", "C13", "C16"]),
     ])
     u.text(HIST)
     u.witnesses = ["witness_hist_inv_reachable"]
@@ -650,8 +650,8 @@ def build(name="alloc", archetype_items=None):
         "C13.free_fifo": [], "C13.free_untouched_when_empty": [], "C13.free_appended": [],
         "C13.free_consumed_exactly": ["C13", "C06"],
         "pre": [],
-        "clone": ["C10", "C02", "C13"],
-        "C10": ["C10", "C02", "C13"],
+        "clone": ["C10", "C02", "C13", "C16"],
+        "C10": ["C10", "C02", "C13", "C16"],
         "C02.shrink_keeps_slots": ["C02", "C01", "C13"],
         "C13.shrink_keeps_free": ["C13"],
     }
